@@ -647,7 +647,7 @@ func cmdC05(seed int64, tier, outDir string) {
 	r := NewRng(seed)
 	sum := NewSummary("C05", seed, tier)
 	sum.Rule = "one program per case = (fault source) placed in (context), evaluated by the real generated function in its own worker process under GOMAXPROCS in {1,2,16}; fault sources: every binary operator x operand-kind pair (7 kinds) + integer/float/string/list boundaries, unary operators, index and member access, every static function and every method of value.New() (names and arities read from the generator) x argument kinds, host function that panics / hits a Go runtime error / returns an error, throw, closure called with a wrong argument count, runaway recursion on one storage, through fresh storages, and with a deep body; contexts: " + fmt.Sprint(len(c05Contexts)) + " (top, closure, func, try/catch x3, sequential and forced-parallel map/accept, downstream of a parallel stage, merge operands and less, multiUse consumers); non-trivial = the case is an evaluation (not a Generate error) whose fault source is not a plain value; distinct by (fault source incl. operand kinds and values, context)"
-	cw := NewCaseWriter(outDir, "From P2 Require Import Base.Prelude Sem.Num Sem.Syntax Conc.Crash Run.C05Run.", "c05_case", "c05_id", "c05_im", "c05_is", 200)
+	cw := NewCaseWriter(outDir, "From P2 Require Import Base.Prelude Sem.Num Sem.Syntax Conc.Crash Run.C05Run.", "c05_case", "c05_id", "c05_im", "c05_is", 250)
 
 	var cases []c05Case
 	if optReplay != "" {
@@ -676,7 +676,7 @@ func cmdC05(seed int64, tier, outDir string) {
 		k := 0
 		for _, l := range reps {
 			for _, ctx := range c05Contexts {
-				all := thorough || strings.HasPrefix(l.Src, "host-") || l.Src == "guard-recursion"
+				all := thorough || l.Src == "host-panic"
 				if ctx.Gor && all {
 					for _, p := range procs {
 						cases = append(cases, c05Case{l, ctx.Name, p})
@@ -696,7 +696,7 @@ func cmdC05(seed int64, tier, outDir string) {
 			}
 		}
 		// a sample of the full product
-		n := 100 * optBoost
+		n := 60 * optBoost
 		if thorough {
 			n = 6000 * optBoost
 		}
@@ -751,7 +751,7 @@ func cmdC05(seed int64, tier, outDir string) {
 			sum.Sample(human)
 		}
 		coqObs := map[string]string{"val": "OVal", "catch": "OCatch", "err": "OErr", "died": "ODied"}[obs.Class]
-		cw.Add(fmt.Sprintf("(%d, %s, %s, %s, %d, %s)", id, c.Leaf.Coq, c05CtxByName(c.Ctx).Coq, CoqBool(obs.Par), c.Leaf.D, coqObs))
+		cw.Add(fmt.Sprintf("c05_mk %d %s %s %s %d %s", id, c.Leaf.Coq, c05CtxByName(c.Ctx).Coq, CoqBool(obs.Par), c.Leaf.D, coqObs))
 
 		// the property, judged on the observation alone
 		tryOuter := strings.HasPrefix(c.Ctx, "try")
